@@ -1119,7 +1119,9 @@ class DrainCont:
             if ex.decide(st, v):
                 self.stage_i += 1
             else:
+                # std's TakeWhile consumes the first failing item; what follows stays in the source
                 self.cur = None
+                self.rest = list(self.pending)
                 self.pending = []
         return self._advance(ex, st)
 
@@ -1437,3 +1439,162 @@ def make_combinators():
         (rx(r"^<(?:std::iter::)?(Map|Filter|SkipWhile|TakeWhile|Take|Skip|Zip|Enumerate|Chain)<.*> as Iterator>::next$"), m_lazy_next),
         (rx(r"^<(?:std::iter::)?(Map|Filter|SkipWhile|TakeWhile|Take|Skip|Zip|Enumerate|Chain)<.*> as IntoIterator>::into_iter$"), m_into_iter_identity),
     ]
+
+
+# ================================================================================================
+# Text environment + Peekable<Chars> (for sys::expand)
+# ================================================================================================
+class PeekableM(VecM):
+    pass
+
+
+class TextEnv:
+    """The process environment as uninterpreted functions of the variable NAME (a char sequence):
+    is it set, and (when set) its value, a text of `vlen` symbolic chars.  The same name always gives
+    the same answer; different names are unrelated.  `vlen` is a per-job bound."""
+
+    def __init__(self, solver, vlen):
+        self.solver, self.vlen = solver, vlen
+        self.decl = set()
+
+    def lookup(self, ex, st, name_chars):
+        L = len(name_chars)
+        fs, fv = "envset_%d" % L, "envval_%d" % L
+        if L not in self.decl:
+            self.decl.add(L)
+            if L == 0:
+                self.solver.declare(fs, "Bool")
+                for i in range(self.vlen):
+                    self.solver.declare("%s_%d" % (fv, i), "(_ BitVec 32)")
+            else:
+                self.solver.declare_fun(fs, ["(_ BitVec 32)"] * L, "Bool")
+                for i in range(self.vlen):
+                    self.solver.declare_fun("%s_%d" % (fv, i), ["(_ BitVec 32)"] * L, "(_ BitVec 32)")
+        argt = " ".join(c.smt() for c in name_chars)
+        app = (lambda f: "(%s %s)" % (f, argt)) if L else (lambda f: f)
+        is_set = B(app(fs))
+        val = [BV(32, False, app("%s_%d" % (fv, i))) for i in range(self.vlen)]
+        return is_set, val
+
+    def value_constraints(self, val):
+        """values are valid text: Unicode scalars, and (unix) no NUL"""
+        out = []
+        for c in val:
+            t = c.smt()
+            out.append("(and (bvule %s #x0010ffff) (not (= %s #x00000000)) (not (and (bvuge %s #x0000d800) (bvule %s #x0000dfff))))" % (t, t, t, t))
+        return out
+
+
+def make_expand_models(tenv):
+    from .values import bv_bin
+
+    def m_var(ex, st, args, callee, ty):
+        name = sstr_of(ex, st, args[0])
+        is_set, val = tenv.lookup(ex, st, name.chars)
+        if ex.decide(st, is_set):
+            for c in tenv.value_constraints(val):
+                if c not in st.pc:
+                    st.pc.append(c)
+            return Adt("Result", 0, "Ok", [SStr(val)])
+        return Adt("Result", 1, "Err", [Adt("VarError", 0, "NotPresent", [])])
+
+    def m_peekable(ex, st, args, callee, ty):
+        src = _obj(ex, st, args[0])
+        return PeekableM(src.items)
+
+    def m_peek(ex, st, args, callee, ty):
+        p = _obj(ex, st, args[0])
+        return opt_some(ex, BoxRef(p.items[0])) if p.items else opt_none(ex)
+
+    def m_next(ex, st, args, callee, ty):
+        p = _obj(ex, st, args[0])
+        return opt_some(ex, p.items.pop(0)) if p.items else opt_none(ex)
+
+    def m_next_if_eq(ex, st, args, callee, ty):
+        p = _obj(ex, st, args[0])
+        want = _obj(ex, st, args[1])
+        if p.items and ex.decide(st, bv_bin("Eq", p.items[0], want)):
+            return opt_some(ex, p.items.pop(0))
+        return opt_none(ex)
+
+    class NextIfCont:
+        def __init__(self, target):
+            self.target = target
+
+        def resume(self, ex, st, v):
+            if ex.decide(st, v):
+                return opt_some(ex, self.target.items.pop(0))
+            return opt_none(ex)
+
+    def m_next_if(ex, st, args, callee, ty):
+        p = _obj(ex, st, args[0])
+        if not p.items:
+            return opt_none(ex)
+        return CallBack(args[1], [BoxRef(p.items[0])], NextIfCont(p))
+
+    def m_by_ref(ex, st, args, callee, ty):
+        return args[0]
+
+    def m_take_while_byref(ex, st, args, callee, ty):
+        src = _obj(ex, st, args[0])
+        l = LazyIter(src.items, [("take_while", args[1])])
+        l.source = src
+        return l
+
+    def m_collect_string_lazy(ex, st, args, callee, ty):
+        l = _obj(ex, st, args[0])
+        return DrainCont(l, "string_writeback", target=getattr(l, "source", None)).start(ex, st)
+
+    def m_add_assign(ex, st, args, callee, ty):
+        dst = args[0]
+        cur = sstr_of(ex, st, dst)
+        new = SStr(cur.chars + sstr_of(ex, st, args[1]).chars)
+        if isinstance(dst, Ref):
+            ex._write(st, dst.depth, dst.local, dst.proj, new)
+        elif isinstance(dst, BoxRef):
+            dst.obj = new
+        else:
+            raise Unsupported("String += through %r" % (dst,))
+        return UNIT
+
+    class CollectNextCont:
+        """collect::<String>() of rivia's PeekingTakeWhile: drive its real `next` until None"""
+
+        def __init__(self, it, nextfn):
+            self.it, self.nextfn, self.out = it, nextfn, []
+
+        def resume(self, ex, st, v):
+            if v.variant == 0:
+                return SStr(self.out)
+            self.out.append(v.fields[0])
+            return CallBack(self.nextfn, [self.it], self)
+
+    def m_collect_peeking(ex, st, args, callee, ty):
+        from .engine import FnItem
+        it = BoxRef(args[0]) if not isinstance(args[0], (Ref, BoxRef)) else args[0]
+        nextfn = FnItem("<PeekingTakeWhile as Iterator>::next")
+        return CallBack(nextfn, [it], CollectNextCont(it, nextfn))
+
+    return [
+        (rx(r"^(?:std::env::)?var::<(&String|&str|String)>$"), m_var),
+        (rx(r"^<Chars<'_> as Iterator>::peekable$"), m_peekable),
+        (rx(r"^Peekable::<Chars<'_>>::peek$"), m_peek),
+        (rx(r"^<Peekable<Chars<'_>> as Iterator>::next$"), m_next),
+        (rx(r"^Peekable::<Chars<'_>>::next_if_eq::<char>$"), m_next_if_eq),
+        (rx(r"^Peekable::<(?:Chars<'_>|I)>::next_if::<.*>$"), m_next_if),
+        (rx(r"^<Peekable<Chars<'_>> as Iterator>::by_ref$"), m_by_ref),
+        (rx(r"^<&mut Peekable<Chars<'_>> as Iterator>::take_while::<.*>$"), m_take_while_byref),
+        (rx(r"^<TakeWhile<&mut Peekable<Chars<'_>>, .*> as Iterator>::collect::<String>$"), m_collect_string_lazy),
+        (rx(r"^<(?:peekable::)?PeekingTakeWhile<'_, Chars<'_>, .*> as Iterator>::collect::<String>$"), m_collect_peeking),
+        (rx(r"^<String as AddAssign<&str>>::add_assign$"), m_add_assign),
+        (rx(r"^<(?:T|Matches<'_, char>) as Iterator>::next$"), m_next),
+    ]
+
+
+def _fin_string_writeback(ex, st, cont, out, rest):
+    if cont.target is not None:
+        cont.target.items = list(getattr(cont, "rest", rest))
+    return SStr(out)
+
+
+FINISHERS["string_writeback"] = _fin_string_writeback
